@@ -4,8 +4,9 @@ emit('C15', '''C15 — Silent peers time out; healthy peers never do, for every 
    PARTIAL: "in a mesh with stable membership on a delivering network no healthy peer is ever timed
    out" combines interval_safe with message delivery; it is decided by the executed correspondence
    on heterogeneous meshes for the grid of timeout/keepalive values (py/props/c15.py).''',
- ['Base','Interval','IntervalProofs','NodeInfo','Table','TableProofs','Node','NodeProofs'],
+ ['Base','Interval','IntervalProofs','NodeInfo','Table','TableProofs','Nonce','Replay','Core','Conn','PeerCrypto','Node','NodeProofs','ScheduleProofs'],
  [('interval_safe','IntervalProofs.v','interval_safe','whenever a node schedules its next announcement the delay is at most one second or strictly shorter than every timeout its peers advertised'),
+  ('node_schedule_safe','ScheduleProofs.v','announcement_schedule_safe','node level: the announcement step of housekeeping (C15_housekeep_expires_first shows where it sits) sets the next announcement to now + that interval, computed from the timeouts its current peers advertised'),
   ('interval_no_peers','IntervalProofs.v','interval_no_peers','with no peers the own update frequency, capped at 90 s'),
   ('keepalive_default','IntervalProofs.v','keepalive_default','the default keepalive is at least 1 and below the peer timeout'),
   ('expired_removed','NodeProofs.v','expired_peers_removed','a peer whose timeout passed is removed at the next housekeeping tick together with all its claims and learned entries'),
